@@ -26,7 +26,7 @@ KINDS = xf.LINEAR_KINDS + xf.SCAT_KINDS
 
 def plan(tier):
     if tier == 'quick':
-        return [{'n': 200} for _ in range(8)]
+        return [{'n': 200} for _ in range(16)]
     units = [{'n': 1500, 'kind': k} for k in KINDS]
     units += [{'n': 5000} for _ in range(16)]
     return units
